@@ -66,6 +66,8 @@ def run(ck: Checker, prog: Program, tier: str):
     ck.guard(_one_trace_per_file, ck, prog)
     ck.guard(_read, ck, prog)
     ck.guard(_regex, ck, prog)
+    from .common import check_identity_comparisons as _cic
+    ck.guard(_cic, ck, prog, "C07.R1", "C07")
 
 
 def _ctor_call(f) -> Optional[ast.Call]:
